@@ -9,6 +9,7 @@
            parse           both MPDs readable, the single-period one has exactly one period, the other at least one
            pers            [{id, s, f}]  Period@id, Period@start in whole seconds, sub-second remainder in ms
            B               = pers[1].s, the base of all relative quantities (PeriodsOps)
+           nowB            request instant - availabilityStartTime - B s, in ms (clamped to 31 bits; only the sign is used)
            pt, ptok        publishTime - availabilityStartTime - B s, in ms; both attributes readable
            as              per AdaptationSet of the single-period MPD (multi-period ones matched by position):
                            {ct, rep, ts, tmpl, one: [[t, d, n, st, dig]], per: [{pto, ts, pc, segs: [[t, d, n, st, dig]]}]}
@@ -63,7 +64,9 @@ Mpd == /\ e.ev = "mpd"
        /\ IF ~e.acc THEN UNCHANGED ids
           ELSE IF ~e.parse THEN Clause("C06.partition", FALSE, [ct |-> "", rep |-> "", kind |-> "", why |-> "MPD unreadable"]) /\ UNCHANGED ids
           ELSE
-          /\ Clause("C06.tile", TileOK(Starts, Fracs, PD) /\ e.B = e.pers[1].s, [starts |-> Starts, fracs |-> Fracs, PD |-> PD])
+          /\ Clause("C06.tile", TileOK(Starts, Fracs, PD, H.ast) /\ e.B = e.pers[1].s, [starts |-> Starts, fracs |-> Fracs, PD |-> PD, ast |-> H.ast])
+          /\ Clause("C06.cover", CoverOK(e.nowB), [first_start |-> e.B, now_minus_first_start_ms |-> e.nowB, ast |-> H.ast,
+                                                   why |-> "every generated period starts after the request instant"])
           \* ids are a function of the period index k = start / PD only: the same k has the same id at every instant of the sweep
           /\ Clause("C06.ids", \A j \in 1..Len(e.pers) : KOf(j) \in DOMAIN ids => ids[KOf(j)] = e.pers[j].id,
                     [pers |-> e.pers, PD |-> PD])
